@@ -723,18 +723,16 @@ Definition spec_lookup_online_data_by_address (s : spec) (a : bytes) : res (N * 
   | [] => ErrNotFound
   end.
 
-(* newest row per address among updround <= rnd (GROUP BY address with max(updround)), address order *)
-Fixpoint latest_per_addr (rows : list (skey * value)) : list (skey * value) :=
-  match rows with
-  | [] => []
-  | e :: t => match t with
-              | e' :: _ => if beqb (onl_addr (fst e)) (onl_addr (fst e')) then latest_per_addr t
-                           else e :: latest_per_addr t
-              | [] => [e]
-              end
+(* GROUP BY address with max(updround) among updround <= rnd: the rows that no newer row (<= rnd) of
+   the same address supersedes, in address order *)
+Definition is_latest_upto (s : spec) (rnd : N) (e : skey * value) : bool :=
+  match fst e with
+  | KOnl a r =>
+      (r <=? rnd) &&
+      negb (existsb (fun e' => match fst e' with KOnl a' r' => beqb a a' && (r <? r') && (r' <=? rnd) | _ => false end) s)
+  | _ => false
   end.
-Definition spec_latest_rows (s : spec) (rnd : N) : list (skey * value) :=
-  latest_per_addr (sselect s (fun k => is_onl k && (onl_round k <=? rnd))).
+Definition spec_latest_rows (s : spec) (rnd : N) : list (skey * value) := ssort (filter (is_latest_upto s rnd) s).
 
 (* ORDER BY normalizedonlinebalance DESC, address DESC *)
 Definition top_before (e1 e2 : skey * value) : bool :=
